@@ -81,6 +81,9 @@ def rule_first_match(ck):
     in_loop = [r for r in rets if any(r.ast is x for x in ast.walk(lp.ast))]
     after = [r for r in rets if r not in in_loop]
     hits = [r for r in in_loop if q.dotted(r.ast.value) == dvar]
+    if not hits and any(isinstance(x, ast.Break) for x in ast.walk(lp.ast)):
+        # single-exit form (`break` out of the loop and one return after it): not read by this rule -> fail closed
+        raise AnalysisError("RuleRouter.find_handler: the loop is left with `break` instead of returning the delegate; this exit shape is not understood")
     ck.ob(rid, f, lp.ast.iter if not hits else hits[0].ast, len(hits) >= 1, "the loop returns the delegate as soon as one is found (first match wins)", construct="in-loop return of the delegate: %d" % len(hits))
     matched = branch_flag(cfg, "%s is None" % mvar, False, [mvar])
     found = branch_flag(cfg, "%s is None" % dvar, False, [dvar])
@@ -924,6 +927,10 @@ def run(ck):
     from .. import x_inline
 
     ck.repo = x_inline.inline_repo(ck.repo, ["tornado/routing.py"], keep=['_find_groups', '_unquote_or_none'])
+    from ..x_valuewalk import expand_result_variable, coalesce_copies
+
+    ck.repo = expand_result_variable(ck.repo, "tornado/routing.py", ['_unquote_or_none', 'match'])
+    ck.repo = coalesce_copies(ck.repo, "tornado/routing.py", ['__init__'])
     guard_obligations(ck, ['_find_groups', '_unquote_or_none', '_re_unescape_replacement', '_load_ui_modules', '_load_ui_methods', '_execute', '_has_stream_request_body', '_parse_body'])
     ck.rule("C31.first-match", "RuleRouter.find_handler tries self.rules in insertion order and returns inside the loop at the first non-None delegate of a matching rule, else None; add_rules appends in order; Application keeps the catch-all rule last")
     ck.rule("C31.anchored", "string patterns are compiled with a trailing '$' and applied with match()/fullmatch() to request.path / request.host_name; a regex miss yields None")
